@@ -434,6 +434,12 @@ func (t *fnTrans) siteBefore(site string, in ssa.Instruction, cc *ssa.CallCommon
 			for i, a := range args {
 				e.binds[fmt.Sprintf("arg%d", i)] = sval{term: t.val(a), typ: a.Type(), sort: t.sortOf(a.Type())}
 			}
+			// recv: the receiver of the call (interface value of an invoke, or the first argument of a method call)
+			if cc.IsInvoke() {
+				e.binds["recv"] = sval{term: t.val(cc.Value), typ: cc.Value.Type(), sort: t.sortOf(cc.Value.Type())}
+			} else if len(args) < len(cc.Args) {
+				e.binds["recv"] = sval{term: t.val(cc.Args[0]), typ: cc.Args[0].Type(), sort: t.sortOf(cc.Args[0].Type())}
+			}
 		}
 		if term, ok := t.evalBool(e, sl); ok {
 			t.oblige("site", fmt.Sprintf("before:%s:%d", site, k+1), in.Pos(), term, "assert before "+site+": "+sl.text)
@@ -533,6 +539,76 @@ func (t *fnTrans) siteAfter(site string, in ssa.Instruction, cc *ssa.CallCommon,
 			t.oblige("site", fmt.Sprintf("at:%s:%d", site, k+1), in.Pos(), term, "assert at "+site+": "+sl.text)
 		}
 	}
+}
+
+// unreachedGhost: a `ghost g = e at <site>` whose site has not been translated when a clause
+// mentions g. Blocks are translated in a topological order of the loop-cut CFG, so the site is
+// not on any path to the current point: on such paths g denotes an arbitrary value of its type
+// (a clause has to guard its use with the condition under which the site runs). The type is
+// found by evaluating e once in the entry state with fresh results of the site's call.
+func (t *fnTrans) unreachedGhost(name string) (out sval, ok bool) {
+	if t.contract == nil {
+		return sval{}, false
+	}
+	if v, hit := t.ghostUnreached[name]; hit {
+		return v, true
+	}
+	for _, gl := range t.contract.ghost {
+		n, expr, gsite, gok := splitGhost(gl.text)
+		if !gok || n != name {
+			continue
+		}
+		var at ssa.Instruction
+		for in, s := range t.sites {
+			if s == gsite {
+				at = in
+			}
+		}
+		if at == nil {
+			return sval{}, false
+		}
+		func() {
+			defer func() {
+				if r := recover(); r != nil {
+					ok = false
+				}
+			}()
+			e := &evalCtx{t: t, fn: t.fn, st: t.entry, old: t.entry, binds: map[string]sval{}, locals: false}
+			if v, isVal := at.(ssa.Value); isVal {
+				if tu, isTu := v.Type().(*types.Tuple); isTu {
+					for i := 0; i < tu.Len(); i++ {
+						e.results = append(e.results, sval{term: t.freshOf("ghost."+name, tu.At(i).Type()), typ: tu.At(i).Type(), sort: t.sortOf(tu.At(i).Type())})
+					}
+				} else if v.Type() != nil {
+					e.results = []sval{{term: t.freshOf("ghost."+name, v.Type()), typ: v.Type(), sort: t.sortOf(v.Type())}}
+				}
+			}
+			x, err := parseSpec(expr)
+			if err != nil {
+				panic(err)
+			}
+			v := e.inState(t.entry, func() sval { return e.eval(x) })
+			if v.addr || v.sort == "" {
+				return
+			}
+			var term string
+			if v.typ != nil {
+				term = t.freshOf("ghost.unreached."+name, v.typ)
+			} else {
+				term = t.c.declare(t.c.fresh("ghost.unreached."+name), v.sort)
+			}
+			out = sval{term: term, typ: v.typ, sort: v.sort, st: t.entry}
+			ok = true
+		}()
+		if ok {
+			if t.ghostUnreached == nil {
+				t.ghostUnreached = map[string]sval{}
+			}
+			t.ghostUnreached[name] = out
+		}
+		return out, ok
+	}
+	return sval{}, false
 }
 
 func splitGhost(s string) (name, expr, site string, ok bool) {
